@@ -13,3 +13,4 @@ import Gbo.Props.C14
 import Gbo.Props.C15
 import Gbo.Props.C16
 import Gbo.Props.C17
+import Gbo.Props.C18
